@@ -470,6 +470,228 @@ class C12(LockCheck):
         return True
 
 
+# =====================================================================================================
+# IDManager / EpochManager properties
+# =====================================================================================================
+import gen_thread
+
+
+class ThreadCheck(LockCheck):
+    """Same decision logic as the lock checks; scenarios for the thread components, one harness build per
+    ID capacity (DBGROUP_MAX_THREAD_NUM)."""
+    components = ['thread']
+    caps = [1, 2, 3]
+    kinds = ('epoch', 'id')
+    seq_share = 0.0
+    long_share = 0.08
+    counts = {'quick': 360, 'thorough': 6000}
+    corpus = 'thread'
+    finding_tags = {}
+    assumptions = [
+        'executions are interleavings of the scheduling points (atomic operations, heartbeat issue / expiry / lookup); '
+        'plain accesses of the epoch manager are folded into the quantum of the preceding scheduling point',
+        'one coordinator thread calls ForwardGlobalEpoch',
+    ]
+
+    def relevant_functions(self):
+        return ['IDManager::', 'EpochManager::', 'Epoch::']
+
+    def dynamic_part(self):
+        exes = {}
+        try:
+            for cap in self.caps:
+                exes[cap] = common.build_harness('thread', nthread=cap)
+        except FrameworkError as e:
+            ok, out = common.repo_builds_normally()
+            if not ok:
+                print('the repository does not compile normally:\n' + out[-1500:])
+                raise SystemExit(2)
+            self.cov.update({'evaluations': 0, 'harness_build_error': str(e)[-1500:]})
+            return {'failures': [], 'mismatches': [], 'tie_c_problem': 'harness does not compile with the shim: ' + str(e)[-1500:]}
+        self.exes = exes
+        n = self.counts[self.tier] // len(self.caps)
+        allscen, results, stats = {}, {}, {}
+        bycap = {cap: {} for cap in self.caps}
+        for sid, txt in self.corpus_scenarios_thread().items():
+            m = re.search(r'needcap=(\d+)', txt)
+            cap = int(m.group(1)) if m else self.caps[-1]
+            if cap in bycap:
+                bycap[cap][sid] = txt
+        for cap in self.caps:
+            for s_ in gen_thread.make_scenarios(self.seed, n, f't{cap}-{self.seed}-', cap, kinds=self.kinds,
+                                                long_share=self.long_share, seq_share=self.seq_share):
+                bycap[cap][s_.split()[1]] = s_
+        for cap in self.caps:
+            r_, st_ = common.run_scenarios(exes[cap], list(bycap[cap].values()))
+            results.update(r_)
+            stats = common.merge_stats(stats, st_)
+            allscen.update({k: (cap, v) for k, v in bycap[cap].items()})
+        failures, mismatches = [], []
+        ok_count = 0
+        for sid in sorted(results):
+            r = results[sid]
+            msg = self.relevant_failure(r)
+            if msg:
+                failures.append((r['steps'], sid, msg))
+            if r['corr'] != 'ok':
+                mismatches.append({'scenario_id': sid, 'detail': r['corr'][:500]})
+            if r['corr'] == 'ok' and r['end'] == 'ok':
+                ok_count += 1
+        missing = [sid for sid in allscen if sid not in results]
+        if missing:
+            mismatches.append({'scenario_id': missing[0], 'detail': f'{len(missing)} scenarios produced no result'})
+        failures.sort()
+        fobjs = []
+        seen_tags = set()
+        for _, sid, msg in failures:
+            tag = self.tag_of(msg)
+            if tag in seen_tags:
+                continue
+            seen_tags.add(tag)
+            cap, txt = allscen[sid]
+            w = self.make_witness(exes[cap], txt, msg)
+            w['capacity'] = cap
+            fobjs.append(w)
+            if len(fobjs) >= 4:
+                break
+        self.cov.update({
+            'evaluations': len(results),
+            'traces_validated_against_impl': ok_count,
+            'distinct_nontrivial': len({re.sub(r'SCEN \S+', '', v[1]) for v in allscen.values()}),
+            'rule': 'scenarios = histories of thread start/exit (more threads than IDs, every probe start), guard creation / '
+                    'destruction, GetProtectedEpochs, one coordinator forwarding the epoch (some runs across the 256-epoch '
+                    'node boundaries) x scheduler policy/seed, for ID capacities ' + str(self.caps) + '; each executed on the real '
+                    'code under the baton scheduler and replayed step by step on the Lean model',
+            'components': ['IDManager', 'EpochManager', 'Epoch', 'EpochGuard'],
+            'distribution': stats,
+            'mismatching_scenarios': len(mismatches),
+            'exhaustive': False,
+        })
+        some = sorted(allscen)[:2]
+        self.samples = [allscen[s_][1][:1500] for s_ in some]
+        self.cov['samples'] = self.samples
+        return {'failures': fobjs, 'mismatches': mismatches}
+
+    def tag_of(self, msg):
+        tags = re.findall(r'\[[^\]]*\]', msg)
+        return ' '.join(tags) if tags else 'untagged:' + msg[:20]
+
+    def corpus_scenarios_thread(self):
+        out = {}
+        d = os.path.join(VERIF, 'corpus', 'thread')
+        if os.path.isdir(d):
+            for fn in sorted(os.listdir(d)):
+                if fn.endswith('.scen'):
+                    txt = open(os.path.join(d, fn)).read().strip()
+                    out[txt.split()[1]] = txt
+        return out
+
+    def matches_signature(self, finding, viol):
+        sig = finding.get('signature_substring')
+        return bool(sig) and sig in viol.get('msg', '')
+
+    def search(self):
+        exes = getattr(self, 'exes', None)
+        if not exes:
+            return None
+        for k in range(1, 4):
+            for cap in self.caps:
+                scen = {s_.split()[1]: s_ for s_ in gen_thread.make_scenarios(self.seed * 1000 + k, 500, f's{cap}-', cap,
+                                                                              kinds=self.kinds, long_share=self.long_share,
+                                                                              seq_share=self.seq_share)}
+                results, _ = common.run_scenarios(exes[cap], list(scen.values()))
+                best = None
+                for sid in sorted(results):
+                    msg = self.relevant_failure(results[sid])
+                    if msg and not self.finding_matches({'msg': msg}) and (best is None or results[sid]['steps'] < best[0]):
+                        best = (results[sid]['steps'], sid, msg)
+                if best:
+                    w = self.make_witness(exes[cap], scen[best[1]], best[2])
+                    w['capacity'] = cap
+                    return w
+        return None
+
+    def make_witness(self, exe, scen_text, msg):
+        w = super().make_witness(exe, scen_text, msg)
+        w['harness'] = 'thread'
+        return w
+
+    def replay(self, path):
+        obj = json.load(open(path))
+        if 'scenario' not in obj:
+            print(json.dumps(obj, indent=1)[:4000])
+            return 1
+        common.run_extract()
+        ok, out = common.lake_build(['cudrv'])
+        if not ok:
+            raise FrameworkError(out[-2000:])
+        exe = common.build_harness('thread', nthread=obj.get('capacity', 3))
+        res, trace = common.scenario_trace(exe, obj['scenario'])
+        print(trace)
+        for r in res:
+            print(r)
+        bad = any(self.relevant_failure(common.parse_res(r)) for r in res)
+        return 1 if bad else 0
+
+
+class C04(ThreadCheck):
+    lean_module = 'CppUtil.Props.C04'
+    theorems = []
+    categories = ['pin']
+    kinds = ('epoch',)
+
+
+class C05(ThreadCheck):
+    lean_module = 'CppUtil.Props.C05'
+    theorems = []
+    categories = ['ids']
+    kinds = ('id', 'id', 'epoch')
+
+
+class C14(ThreadCheck):
+    lean_module = 'CppUtil.Props.C14'
+    theorems = []
+    categories = ['idleak']
+    stuck_relevant = True
+    kinds = ('id', 'id', 'epoch')
+
+
+class C15(ThreadCheck):
+    lean_module = 'CppUtil.Props.C15'
+    theorems = []
+    categories = ['heartbeat']
+    kinds = ('id', 'epoch')
+
+
+class C16(ThreadCheck):
+    lean_module = 'CppUtil.Props.C16'
+    theorems = []
+    categories = ['epoch']
+    kinds = ('epoch',)
+    long_share = 0.15
+
+
+class C17(ThreadCheck):
+    lean_module = 'CppUtil.Props.C17'
+    theorems = []
+    categories = ['list']
+    kinds = ('epoch',)
+    long_share = 0.15
+
+    def crash_relevant(self):
+        return True
+
+
+class C20(ThreadCheck):
+    lean_module = 'CppUtil.Props.C20'
+    theorems = []
+    categories = ['seqlist', 'seqnodes']
+    kinds = ('epoch',)
+    seq_share = 1.0
+    long_share = 0.2
+    caps = [2, 3, 4]
+
+
 PROPS = {
-    'C01': C01, 'C11': C11, 'C12': C12, 'C02': C02, 'C03': C03, 'C07': C07, 'C09': C09, 'C10': C10, 'C13': C13,
+    'C01': C01, 'C11': C11, 'C12': C12, 'C04': C04, 'C05': C05, 'C14': C14, 'C15': C15, 'C16': C16, 'C17': C17, 'C20': C20, 'C02': C02, 'C03': C03, 'C07': C07, 'C09': C09, 'C10': C10, 'C13': C13,
 }
